@@ -134,6 +134,10 @@ struct World {
     relay: Option<Relay>,
     fin: Option<Value>,
     started: bool,
+    /// free-running family: which probes were members of GROUP when the scenario proper started
+    init_grp: Vec<bool>,
+    /// free-running family: the remote references never came to reflect their originals (10 s)
+    unsettled: bool,
 }
 type W = Arc<Mutex<World>>;
 
@@ -407,7 +411,7 @@ fn base(a: &str, e: &Ev) -> Map<String, Value> {
 pub fn one_run(sc: &Scenario, ex: &mut Explorer, dump: bool) -> (Vec<Value>, Value, bool) {
     let sc = Arc::new(sc.clone());
     let total = sc.hold.len() + usize::from(sc.late);
-    let w: W = Arc::new(Mutex::new(World { probes: vec![None; total], sess: [None, None], node_ids: [0, 0], proxies: HashMap::new(), relay: None, fin: None, started: false }));
+    let w: W = Arc::new(Mutex::new(World { probes: vec![None; total], sess: [None, None], node_ids: [0, 0], proxies: HashMap::new(), relay: None, fin: None, started: false, init_grp: vec![], unsettled: false }));
     let _ = RUN_SEQ.fetch_add(1, std::sync::atomic::Ordering::SeqCst);
     ractor_cluster::verif::clear_connection_ids();
     let (w2, sc2) = (w.clone(), sc.clone());
@@ -503,7 +507,7 @@ pub fn one_run(sc: &Scenario, ex: &mut Explorer, dump: bool) -> (Vec<Value>, Val
     m.insert("up".into(), f["up"].clone());
     evs.push(Value::Object(m));
     let bad = !ok || !run.quiescent || !g.started;
-    let init: Vec<Value> = (0..total).map(|x| json!({"x": xn(x), "st": if x < sc.hold.len() { "alive" } else { "none" }})).collect();
+    let init: Vec<Value> = (0..total).map(|x| json!({"x": xn(x), "st": if x < sc.hold.len() { "alive" } else { "none" }, "grp": 0})).collect();
     let meta = json!({"family": "remoteactor", "scenario": format!("{:?}", sc), "init": init, "sched": ex.sched, "steps": run.steps, "quiescent": run.quiescent,
                       "started": g.started});
     (evs, meta, bad)
@@ -568,6 +572,45 @@ async fn free_task(w: W, seed: u64, total: usize) {
             handles.push(h);
         }
     }
+    // many groups make the session's start-up scan of the process groups long; a plain OS thread keeps joining and
+    // leaving the probes to / from GROUP while the sessions are being established (what is joined when the sessions
+    // are ready is the initial membership of the run, and the proxies have to mirror it)
+    let run_no = RUN_SEQ.load(std::sync::atomic::Ordering::SeqCst);
+    if let Some(p0) = w.lock().unwrap().probes[0].clone() {
+        for g in 0..200 {
+            ractor::pg::join(format!("verif-c20-ballast-{run_no}-{g}"), vec![p0.get_cell()]);
+        }
+    }
+    let stop_join = Arc::new(std::sync::atomic::AtomicBool::new(false));
+    let joiner = {
+        let cells: Vec<ActorCell> = w.lock().unwrap().probes.iter().flatten().map(|p| p.get_cell()).collect();
+        let sj = stop_join.clone();
+        let mut jr = Rng(seed ^ 0x6a6f696e);
+        std::thread::spawn(move || {
+            // every probe joins GROUP at most once, at its own instant somewhere in the few milliseconds the sessions
+            // need to come up: a join that the start-up scan misses is never repaired by a later one
+            let mut member = vec![false; cells.len()];
+            let mut plan: Vec<(u64, usize)> = vec![];
+            for x in 0..cells.len() {
+                if jr.below(4) > 0 {
+                    plan.push((jr.below(5000) as u64, x));
+                }
+            }
+            plan.sort();
+            let t0 = std::time::Instant::now();
+            for (at_us, x) in plan {
+                while t0.elapsed() < Duration::from_micros(at_us) {
+                    if sj.load(std::sync::atomic::Ordering::Relaxed) {
+                        return member;
+                    }
+                    std::hint::spin_loop();
+                }
+                ractor::pg::join(GROUP.to_string(), vec![cells[x].clone()]);
+                member[x] = true;
+            }
+            member
+        })
+    };
     let (dd, aa, relay) = cluster2::relayed_pair("c1", rng.next(), None);
     w.lock().unwrap().relay = Some(relay.clone());
     cluster2::dial_with("c1", 7, dd, aa, &a, &b).await;
@@ -575,6 +618,8 @@ async fn free_task(w: W, seed: u64, total: usize) {
     loop {
         tries += 1;
         if tries > 3000 {
+            stop_join.store(true, std::sync::atomic::Ordering::Relaxed);
+            let _ = joiner.join();
             return;
         }
         ractor::concurrency::sleep(Duration::from_millis(1)).await;
@@ -588,6 +633,10 @@ async fn free_task(w: W, seed: u64, total: usize) {
             break;
         }
     }
+    tokio::time::sleep(Duration::from_micros(300 + rng.below(2000) as u64)).await;
+    stop_join.store(true, std::sync::atomic::Ordering::Relaxed);
+    let member = joiner.join().unwrap_or_default();
+    w.lock().unwrap().init_grp = member;
     {
         let g = w.lock().unwrap();
         if g.node_ids[0] == g.node_ids[1] {
@@ -674,13 +723,22 @@ async fn free_task(w: W, seed: u64, total: usize) {
             (0..total).all(|x| {
                 let dead = probes[x].as_ref().map(|p| p.get_status() == ActorStatus::Stopped).unwrap_or(true);
                 let running = probes[x].as_ref().map(|p| p.get_status() == ActorStatus::Running).unwrap_or(false);
+                let members: Vec<ractor::ActorId> = ractor::pg::get_members(&GROUP.to_string()).iter().map(|c| c.get_id()).collect();
+                let orig_in = probes[x].as_ref().map(|p| members.contains(&p.get_id())).unwrap_or(false);
                 (0..2).all(|d| match lookup(&w, d, x) {
                     None => true,
-                    Some(c) => (dead && c.get_status() == ActorStatus::Stopped) || (running && c.get_status() == ActorStatus::Running),
+                    Some(c) => {
+                        (dead && c.get_status() == ActorStatus::Stopped)
+                            || (running && c.get_status() == ActorStatus::Running && members.contains(&c.get_id()) == orig_in)
+                    }
                 })
             })
         };
-        if settled || t0.elapsed() > Duration::from_secs(10) {
+        if settled {
+            break;
+        }
+        if t0.elapsed() > Duration::from_secs(10) {
+            w.lock().unwrap().unsettled = true;
             break;
         }
         tokio::time::sleep(Duration::from_millis(2)).await;
@@ -703,7 +761,7 @@ async fn free_task(w: W, seed: u64, total: usize) {
 
 pub fn one_run_free(seed: u64) -> (Vec<Value>, Value, bool) {
     let total = 3;
-    let w: W = Arc::new(Mutex::new(World { probes: vec![None; total], sess: [None, None], node_ids: [0, 0], proxies: HashMap::new(), relay: None, fin: None, started: false }));
+    let w: W = Arc::new(Mutex::new(World { probes: vec![None; total], sess: [None, None], node_ids: [0, 0], proxies: HashMap::new(), relay: None, fin: None, started: false, init_grp: vec![], unsettled: false }));
     let _ = RUN_SEQ.fetch_add(1, std::sync::atomic::Ordering::SeqCst);
     ractor_cluster::verif::clear_connection_ids();
     verif::enable(true);
@@ -753,8 +811,9 @@ pub fn one_run_free(seed: u64) -> (Vec<Value>, Value, bool) {
     m.insert("pr".into(), f["pr"].clone());
     m.insert("up".into(), f["up"].clone());
     evs.push(Value::Object(m));
-    let init: Vec<Value> = (0..total).map(|x| json!({"x": xn(x), "st": "alive"})).collect();
-    let meta = json!({"family": "remoteactor-free", "scenario": format!("free seed={seed}"), "init": init, "sched": [], "steps": 0, "quiescent": true, "started": g.started});
+    let init: Vec<Value> = (0..total).map(|x| json!({"x": xn(x), "st": "alive", "grp": i64::from(g.init_grp.get(x).copied().unwrap_or(false))})).collect();
+    let meta = json!({"family": "remoteactor-free", "scenario": format!("free seed={seed}"), "init": init, "sched": [], "steps": 0, "quiescent": true, "started": g.started,
+                      "unsettled": g.unsettled});
     (evs, meta, !ok || !g.started)
 }
 
@@ -763,13 +822,22 @@ pub fn batch_free(out: &str, tier: &str, seed: u64) -> Value {
     let n = if tier == "thorough" { 600 } else { 120 };
     let mut rng = Rng(seed ^ 0x66726565);
     let mut bad_runs = 0u64;
+    let mut unsettled_runs = 0u64;
     for _ in 0..n {
         let (evs, meta, bad) = one_run_free(rng.next());
         if bad {
             bad_runs += 1;
             continue; // the nodes never got ready: nothing was exercised
         }
+        let unsettled = meta["unsettled"].as_bool().unwrap_or(false);
         b.run(meta, &evs);
+        if unsettled {
+            // every such run costs 10 s and is a rejection by itself: a handful is enough
+            unsettled_runs += 1;
+            if unsettled_runs >= 6 {
+                break;
+            }
+        }
     }
     b.finish();
     json!({"family": "remoteactor-free", "runs": b.runs, "events": b.events, "distinct": b.hashes.len(), "distinct_nontrivial": b.hashes.len(), "bad_runs": bad_runs, "samples": b.samples})
